@@ -1,3 +1,166 @@
-import TenpyModel.C19.Variants
-/-! placeholder, replaced below -/
-theorem C19_placeholder_PropsCouplings : True := trivial
+import TenpyModel.C19.CouplingProofs
+/-!
+# C19 — couplings: property theorems
+
+"The couplings enumerated for a displacement are exactly the pairs of existing sites separated by it
+under the boundary conditions, each exactly once, with couplings across the boundary of an infinite
+system assigned to exactly one unit cell."
+
+* `Target l X y k0` (CouplingProofs.lean) is the declarative boundary-condition relation: the
+  unwrapped cell position `X` equals the cell `y` plus an integer combination of the periods
+  `P_0 = L_0 e_0`, `P_a = L_a e_a + shift_a e_0`, with no winding in open directions; `k0` is the
+  winding number along `x`.
+* `Admissible l u1 u2 dx i0 j0 k0`: site `i0` is `(x, u1)`, site `j0` is `(y, u2)`, both exist, and
+  `y` is the image of `x + dx`.
+* The theorems hold for every lattice object satisfying `CoupOK` — any dimension, sizes, order —
+  and `C19_coupOK_regular` / `C19_coupOK_irregular` show that the regular lattices (any permutation of
+  the grid as order) and the irregular lattices (any set of sites) built by the model are `CoupOK`.
+-/
+open TenpyModel.C19
+
+namespace TenpyModel.C19
+/-- sites `i0 = (x, u1)` and `j0 = (y, u2)` exist and `y` is the image of `x + dx` under the
+boundary conditions, `k0` MPS unit cells further along `x` -/
+def Admissible (l : Lat) (u1 u2 : Nat) (dx : List Int) (i0 j0 k0 : Int) : Prop :=
+  ∃ x y : List Int, SiteAt l i0 x u1 ∧ SiteAt l j0 y u2 ∧ Target l (vadd x dx) y k0
+end TenpyModel.C19
+
+/-- Regular lattices (`Lattice.__init__` + `order` setter) with any permutation of the grid as
+order are well formed for the coupling enumeration. -/
+theorem C19_coupOK_regular (Ls : List Nat) (Lu : Nat) (bc : List Bool) (sh : Option (List Int)) (fin : Bool)
+    (order : List (List Int)) (hne : Ls ≠ []) (hpos : ∀ L ∈ Ls, 0 < L) (hu : 0 < Lu)
+    (hg : GridOrder (Ls ++ [Lu]) order) (hbc : bc.length = Ls.length) :
+    CoupOK (Lat.mk' Ls Lu bc sh fin order) :=
+  coupOK_mk' Ls Lu bc sh fin order hne hpos hu hg hbc
+
+/-- Irregular lattices (`IrregularLattice`: removed sites are absent from `order`, added sites
+present; `_perm` holds `_REMOVED` exactly at the missing sites) are well formed as well. -/
+theorem C19_coupOK_irregular (Ls : List Nat) (Lu : Nat) (bc : List Bool) (sh : Option (List Int)) (fin : Bool)
+    (order : List (List Int)) (hne : Ls ≠ []) (hpos : ∀ L ∈ Ls, 0 < L)
+    (hnd : order.Nodup) (hin : ∀ r ∈ order, InGrid (Ls ++ [Lu]) r) (hN : 0 < order.length)
+    (hbc : bc.length = Ls.length) :
+    CoupOK (Lat.mkIrregular Ls Lu bc sh fin order) :=
+  coupOK_mkIrregular Ls Lu bc sh fin order hne hpos hnd hin hN hbc
+
+/-- **Soundness, finite MPS, every boundary combination** (also shifted + open): every listed pair
+`(i, j)` is a pair of existing sites separated by `dx` under the boundary conditions. -/
+theorem C19_couplings_sound_finite (l : Lat) (ok : CoupOK l) (hf : l.finite = true) (u1 u2 : Nat)
+    (hu1 : u1 < l.Lu) (hu2 : u2 < l.Lu) (dx : List Int) (hdx : dx.length = l.Ls.length) (i j : Int)
+    (h : (i, j) ∈ couplingPairs l u1 u2 dx) : ∃ k0, Admissible l u1 u2 dx i j k0 := by
+  obtain ⟨_, i0, x, y, k0, j0, h1, h2, h3, h4⟩ := (ok.mem_pairs hu1 hu2 hdx (i, j)).1 h
+  simp only [hf, if_true, Prod.mk.injEq] at h4
+  obtain ⟨rfl, rfl⟩ := h4
+  exact ⟨k0, x, y, h1, h3, h2⟩
+
+/-
+Full-strength statement (exactness for finite MPS and EVERY boundary combination):
+  (i, j) ∈ couplingPairs l u1 u2 dx ↔ ∃ k0, Admissible l u1 u2 dx i j k0
+It is FALSE of the code (hence of the faithful model) when a shifted boundary is combined with an
+open x-direction: see `C19_couplings_complete_counterexample`.  Proved below under `NoShiftOpenX`.
+-/
+
+/-- **Exactness, finite MPS** (shifted boundaries only together with a periodic `x`-direction):
+`(i, j)` is listed iff sites `i = (x, u1)` and `j = (y, u2)` exist and `y` is the image of `x + dx`
+under the boundary conditions (open: inside the lattice; periodic: wrapped, with `bc_shift`). -/
+theorem C19_couplings_exact_finite_partial (l : Lat) (ok : CoupOK l) (hf : l.finite = true)
+    (hns : NoShiftOpenX l) (u1 u2 : Nat) (hu1 : u1 < l.Lu) (hu2 : u2 < l.Lu) (dx : List Int)
+    (hdx : dx.length = l.Ls.length) (i j : Int) :
+    (i, j) ∈ couplingPairs l u1 u2 dx ↔ ∃ k0, Admissible l u1 u2 dx i j k0 := by
+  constructor
+  · exact C19_couplings_sound_finite l ok hf u1 u2 hu1 hu2 dx hdx i j
+  · rintro ⟨k0, x, y, h1, h2, h3⟩
+    refine (ok.mem_pairs hu1 hu2 hdx (i, j)).2 ⟨?_, i, x, y, k0, j, h1, h3, h2, by simp [hf]⟩
+    exact ok.not_early (ok.siteAt_inGrid h1).1 h3 hns
+
+/-- **Counterexample to completeness with a shifted boundary and an open `x`-direction**
+(known finding, replayed on the real code by corpus/C19/shifted-bc-open-x-coupling-shape-zero.json):
+`Square(2, 2, bc=['open', 1])`, `dx = (2, 1)`: site `1 = (0,1)` is mapped onto site `2 = (1,0)`
+(going around `y` shifts `x` by `-1`), but `coupling_shape = (0, 2)` makes `possible_couplings`
+return nothing. -/
+theorem C19_couplings_complete_counterexample :
+    let l := Lat.mk' [2, 2] 1 [true, false] (some [1]) true (castRows (cstyle [2, 2, 1]))
+    Admissible l 0 0 [2, 1] 1 2 0 ∧ couplingPairs l 0 0 [2, 1] = [] := by
+  intro l
+  refine ⟨⟨[0, 1], [1, 0], ⟨1, rfl, by decide, by decide⟩, ⟨2, rfl, by decide, by decide⟩, ?_⟩, by decide⟩
+  show Target l [2, 2] [1, 0] 0
+  exact ⟨[1], by simp [Wraps], by decide, by decide, by decide, by decide⟩
+
+/-- **Exactness, infinite / segment MPS** (periodic along `x`, as `test_sanity` demands; any
+boundary in the other directions, with or without shift): the listed pairs are exactly the
+translates `(i0 + m N, j0 + (k0 + m) N)` by whole MPS unit cells of the admissible couplings
+starting in the unit cell, restricted to `0 ≤ min(i, j) < N`. -/
+theorem C19_couplings_exact_infinite (l : Lat) (ok : CoupOK l) (hf : l.finite = false)
+    (hx : l.bc.headD false = false) (u1 u2 : Nat) (hu1 : u1 < l.Lu) (hu2 : u2 < l.Lu) (dx : List Int)
+    (hdx : dx.length = l.Ls.length) (i j : Int) :
+    (i, j) ∈ couplingPairs l u1 u2 dx ↔
+      ∃ i0 j0 k0 m : Int, Admissible l u1 u2 dx i0 j0 k0 ∧
+        i = i0 + m * l.nSites ∧ j = j0 + (k0 + m) * l.nSites ∧
+        0 ≤ min i j ∧ min i j < (l.nSites : Int) := by
+  have hN := ok.toLatOK.nsites_pos
+  constructor
+  · intro h
+    have hmin := ok.pairs_min_range hf hu1 hu2 hdx (i, j) h
+    obtain ⟨_, i0, x, y, k0, j0, h1, h2, h3, h4⟩ := (ok.mem_pairs hu1 hu2 hdx (i, j)).1 h
+    simp only [hf, Bool.false_eq_true, if_false, Prod.mk.injEq, cellShift_eq _ _ hN] at h4
+    obtain ⟨rfl, rfl⟩ := h4
+    refine ⟨i0, j0, k0, if k0 < 0 then -k0 else 0, ⟨x, y, h1, h3, h2⟩, rfl, by ring, hmin⟩
+  · rintro ⟨i0, j0, k0, m, ⟨x, y, h1, h2, h3⟩, rfl, rfl, hmin0, hmin1⟩
+    have hns : NoShiftOpenX l := by intro h; rw [hx] at h; cases h
+    refine (ok.mem_pairs hu1 hu2 hdx _).2 ⟨ok.not_early (ok.siteAt_inGrid h1).1 h3 hns,
+      i0, x, y, k0, j0, h1, h3, h2, ?_⟩
+    simp only [hf, Bool.false_eq_true, if_false, cellShift_eq _ _ hN]
+    -- both `m` and `max(0, -k0)` put the minimum into `[0, N)`: they coincide
+    obtain ⟨a0, a1⟩ := ok.siteAt_range h1
+    obtain ⟨b0, b1⟩ := ok.siteAt_range h2
+    obtain ⟨m1, _, huniq⟩ := unique_cell_shift i0 (j0 + k0 * l.nSites) l.nSites hN
+    have e1 : m = m1 := by
+      apply huniq
+      have : j0 + k0 * (l.nSites : Int) + m * l.nSites = j0 + (k0 + m) * l.nSites := by ring
+      rw [this]; exact ⟨hmin0, hmin1⟩
+    have e2 : (if k0 < 0 then -k0 else 0) = m1 := by
+      apply huniq
+      by_cases hk : k0 < 0
+      · simp only [hk, if_true]
+        have : j0 + k0 * (l.nSites : Int) + -k0 * l.nSites = j0 := by ring
+        rw [this]
+        have : (-k0) * (l.nSites : Int) ≥ l.nSites := by nlinarith
+        omega
+      · simp only [hk, if_false, Int.zero_mul, Int.add_zero]
+        have : 0 ≤ k0 * (l.nSites : Int) := Int.mul_nonneg (by omega) (by omega)
+        omega
+    rw [e2, ← e1]
+    simp only [Prod.mk.injEq, true_and]; ring
+
+/-- **Unit-cell assignment.** For infinite / segment MPS every listed coupling has
+`0 ≤ min(i, j) < N_sites`; and every coupling of the infinite system — every orbit
+`{(i + m N, j + m N)}` under translation by MPS unit cells — has exactly one representative in that
+range.  With `C19_couplings_exact_infinite`: each boundary-crossing coupling is assigned to exactly
+one unit cell. -/
+theorem C19_unit_cell_assignment (l : Lat) (ok : CoupOK l) (hf : l.finite = false) (u1 u2 : Nat)
+    (hu1 : u1 < l.Lu) (hu2 : u2 < l.Lu) (dx : List Int) (hdx : dx.length = l.Ls.length) :
+    (∀ p ∈ couplingPairs l u1 u2 dx, 0 ≤ min p.1 p.2 ∧ min p.1 p.2 < (l.nSites : Int)) ∧
+    (∀ i j : Int, ∃ m : Int,
+      (0 ≤ min (i + m * l.nSites) (j + m * l.nSites) ∧ min (i + m * l.nSites) (j + m * l.nSites) < (l.nSites : Int)) ∧
+      ∀ m' : Int, (0 ≤ min (i + m' * l.nSites) (j + m' * l.nSites) ∧
+        min (i + m' * l.nSites) (j + m' * l.nSites) < (l.nSites : Int)) → m' = m) :=
+  ⟨fun p hp => ok.pairs_min_range hf hu1 hu2 hdx p hp,
+   fun i j => unique_cell_shift i j l.nSites ok.toLatOK.nsites_pos⟩
+
+/-- **No duplicates**: every pair is listed at most once (any boundary combination, finite or not). -/
+theorem C19_couplings_nodup (l : Lat) (ok : CoupOK l) (u1 u2 : Nat) (hu1 : u1 < l.Lu) (hu2 : u2 < l.Lu)
+    (dx : List Int) (hdx : dx.length = l.Ls.length) : (couplingPairs l u1 u2 dx).Nodup :=
+  ok.pairs_nodup hu1 hu2 hdx
+
+/-- Non-vacuity: the hypotheses are met by a 2x3 lattice with two sites per cell, shifted boundary,
+infinite MPS and a scrambled order; `C19_couplings_nodup` and the unit-cell assignment then hold for
+its (merge-sorted `_perm`) coupling list. -/
+example :
+    let order : List (List Int) := castRows ((cstyle [2, 3, 2]).reverse)
+    let l := Lat.mk' [2, 3] 2 [false, false] (some [-1]) false order
+    (couplingPairs l 0 1 [1, -2]).Nodup ∧
+      ∀ p ∈ couplingPairs l 0 1 [1, -2], 0 ≤ min p.1 p.2 ∧ min p.1 p.2 < 12 := by
+  intro order l
+  have hg : GridOrder ([2, 3] ++ [2]) order := gridOrder_of_perm (List.reverse_perm _)
+  have ok : CoupOK l := C19_coupOK_regular [2, 3] 2 _ _ false order (by decide) (by decide) (by decide) hg rfl
+  exact ⟨C19_couplings_nodup l ok 0 1 (by decide) (by decide) _ rfl,
+    (C19_unit_cell_assignment l ok rfl 0 1 (by decide) (by decide) _ rfl).1⟩
